@@ -6,6 +6,7 @@ import Ivg.Gen.Tie.Magic
 import Ivg.Gen.Tie.ParamWrites
 import Ivg.Gen.Tie.Code.Decoder8
 import Ivg.Gen.Tie.Code.Decoder9
+import Ivg.Gen.Tie.Code.Arc
 import Ivg.Obligations
 /-!
 # C02 — decoding is total, linear, delivers nothing before the metadata is valid, and is prefix-monotone
@@ -238,4 +239,7 @@ end Ivg.Props.C02
   Ivg.Gen.Tie.decode_verdict_independent,
   Ivg.Gen.Tie.decode_dstnil_code_tie,
   Ivg.Gen.Tie.errText_message,
-  Ivg.Gen.Tie.decodeError_Error_code_tie]
+  Ivg.Gen.Tie.decodeError_Error_code_tie,
+  -- regenerated code (translator): AbsArcTo/RelArcTo = the model (at most four segments per arc on the code itself)
+  Ivg.Gen.Tie.absArcTo_code_tie,
+  Ivg.Gen.Tie.relArcTo_code_tie]
